@@ -200,6 +200,23 @@ def search_C05_C06(pid, budget):
             if got != exp:
                 fail(pid, "split", "%s=0 on faint (amplitude 3, about 9.5 dB) windows: regions %r, the windows at or above 0 dB give %r" % (
                     key, got, exp), pattern=pat)
+    # window durations that are not a whole number of samples: the reader's real window is floor(aw*rate) samples
+    for (sr_, aw_) in ((100, 0.026), (11025, 0.03), (22050, 0.03)):
+        n += 1
+        check_split_case(pid, "aAAAAaaAAAaaa", sr_, aw_, 2, 1, 3 * aw_, 6 * aw_, aw_, False, False, 0, "bytes")
+    # a multi-channel recorder split, rewound and split again gives the same regions with the same format
+    from auditok import AudioReader as _ARd
+    n += 1
+    d3 = synth("aAAAAaaAAAaaa", 10, 2, 3)
+    rec_ = _ARd(d3, block_dur=0.01, record=True, sr=1000, sw=2, ch=3)
+    rec_.open()
+    kwr_ = dict(min_dur=0.02, max_dur=0.1, max_silence=0.01)
+    first_ = [(round(r.start * 1000), r.ch, bytes(r)) for r in split(rec_, **kwr_)]
+    rec_.rewind()
+    second_ = [(round(r.start * 1000), r.ch, bytes(r)) for r in split(rec_, **kwr_)]
+    if first_ != second_ or not first_:
+        fail(pid, "split", "3-channel recorder: first split gives %d regions (channels %r), after rewind %d regions (channels %r)" % (
+            len(first_), sorted({x[1] for x in first_}), len(second_), sorted({x[1] for x in second_})))
     # two split() generators with the same format and parameters, consumed alternately, do not disturb each other
     import itertools as _it
     n += 1
@@ -588,6 +605,18 @@ def search_C10_C19(pid, budget):
     n = 0
     t0 = time.time()
     fmts = ((10, 1, 1), (10, 2, 2), (8000, 2, 1), (11025, 2, 1), (8, 4, 3))
+    # a redundant open() in mid-stream does not disturb an overlapping reader
+    n += 1
+    do_ = bytes((i * 3 + 2) % 256 for i in range(60))
+    ro = AudioReader(do_, block_dur=0.5, hop_dur=0.3, sr=10, sw=2, ch=1)
+    ro.open()
+    b0 = [ro.read(), ro.read()]
+    ro.open()
+    rest, tail = read_all(ro)
+    expo = expected_blocks(do_, 2, 5, 3)
+    if b0 + rest != expo:
+        fail(pid, "reader", "overlapping reader with an extra open() after two blocks: block starts %r, expected %r" % (
+            [do_.find(b) // 2 for b in b0 + rest], [do_.find(b) // 2 for b in expo]))
     # the Recorder spelling honours max_read exactly like AudioReader(record=True)
     from auditok.util import Recorder
     dr = bytes((i * 5 + 3) % 256 for i in range(80))
